@@ -28,15 +28,27 @@ type hspec struct {
 	name     string
 	mk       func() hash.Hash
 	leafSize int
+	// varLen: the leaves have different lengths below the block size of the hasher (lengths 8, 7, ..., 3, 8, ...): a
+	// hasher that pads short writes must not remember anything of the previous, longer one
+	varLen bool
+}
+
+func (hs hspec) leafAt(k int) []byte {
+	if hs.varLen {
+		return leaf(hs.leafSize, k)[k%(hs.leafSize-2):]
+	}
+	return leaf(hs.leafSize, k)
 }
 
 func hspecs() []hspec {
 	return []hspec{
-		{"sha256", sha256.New, 4},
-		{"mimc_bn254", func() hash.Hash { return gchash.MIMC_BN254.New() }, 32},
-		{"poseidon2_bn254", func() hash.Hash { return gchash.POSEIDON2_BN254.New() }, 32},
+		{"sha256", sha256.New, 4, false},
+		{"mimc_bn254", func() hash.Hash { return gchash.MIMC_BN254.New() }, 32, false},
+		{"poseidon2_bn254", func() hash.Hash { return gchash.POSEIDON2_BN254.New() }, 32, false},
 		// leaves that are not a whole number of blocks (one block + 8 bytes: the tail is left-padded to a block)
-		{"poseidon2_bn254_leaf40", func() hash.Hash { return gchash.POSEIDON2_BN254.New() }, 40},
+		{"poseidon2_bn254_leaf40", func() hash.Hash { return gchash.POSEIDON2_BN254.New() }, 40, false},
+		// leaves shorter than a block, of decreasing lengths (MiMC left-pads a short write to one block)
+		{"mimc_bn254_short_leaves", func() hash.Hash { return gchash.MIMC_BN254.New() }, 8, true},
 	}
 }
 
@@ -198,7 +210,7 @@ func accAll(r *vlib.Run, g string, hs hspec, n int) {
 	m := refTree{hs.mk}
 	leaves := make([][]byte, n)
 	for k := range leaves {
-		leaves[k] = leaf(hs.leafSize, k)
+		leaves[k] = hs.leafAt(k)
 	}
 	wantRoot := m.root(leaves)
 	for i := 0; i < n; i++ {
@@ -462,7 +474,7 @@ func readers(r *vlib.Run, g string, hs hspec) {
 	nmax := 20
 	for n := 1; n <= nmax; n++ {
 		for _, lastShort := range []bool{false, true} {
-			if lastShort && (hs.leafSize != 4) {
+			if lastShort && hs.leafSize != 4 && !hs.varLen {
 				continue // a short last segment is only a well-formed leaf for byte-oriented hashes
 			}
 			leaves := make([][]byte, n)
